@@ -1,7 +1,8 @@
 """unit drv: run_acb_app_to_delta_models of app/approot.rs (the function that reads the CSV files, assigns read
 indices, sorts, partitions per security, expands global splits and runs the ledger) on top of bk + fx + ord."""
 import os
-from vx.build import Src, mod, shim, MARKER
+import re
+from vx.build import Src, mod, shim, MARKER, BuildError
 import units.bk as bk
 import units.fx as fxu
 
@@ -12,13 +13,64 @@ VERUS_FLAGS = ['--no-lifetime']
 VERIFY_MODULES = ['app::approot', 'app::input_parse', 'portfolio::io::tx_csv']
 
 
+def const_match_to_if(q, head, scrut):
+    """R30 for constants: `match S { PATH => E, .. _ => E }` over `&'static str` constants -> if / else-if chain over
+    crate::csvx::str_eq(S, PATH); same arms, same order (a constant pattern of type &str compares the texts)"""
+    s = q.s
+    a = s.find(head)
+    if a < 0 or s.count(head) != 1:
+        raise BuildError('%s: pinned match header for R30 not found exactly once: %r' % (q.path, head))
+    prefix = head[:head.index('match ')]
+    i = a + len(head)
+    arms = []
+    while True:
+        while s[i].isspace():
+            i += 1
+        if s[i] == '}':
+            end = i + 1
+            break
+        mm = re.match(r'([A-Za-z_][\w:]*|_)\s*=>\s*', s[i:])
+        if not mm:
+            raise BuildError('%s: R30 cannot read a match arm at %r' % (q.path, s[i:i + 40]))
+        pat = mm.group(1)
+        i += mm.end()
+        depth = 0
+        j = i
+        while True:
+            c = s[j]
+            if c in '([{':
+                depth += 1
+            elif c in ')]}':
+                depth -= 1
+            if (c == ',' and depth == 0) or (depth == 0 and c == '}' and s[i] == '{'):
+                break
+            j += 1
+        if s[i] == '{':
+            body = s[i:j + 1]
+            i = j + 1
+            if s[i:i + 1] == ',':
+                i += 1
+        else:
+            body = '{ ' + s[i:j].strip() + ' }'
+            i = j + 1
+        arms.append((pat, body))
+    if not arms or arms[-1][0] != '_':
+        raise BuildError('%s: R30 expects a final `_` arm' % q.path)
+    out = prefix
+    for k, (pat, body) in enumerate(arms):
+        out += ('else ' + body) if pat == '_' else (('if ' if k == 0 else 'else if ') + 'crate::csvx::str_eq(%s, %s) %s ' % (scrut, pat, body))
+    q.s = s[:a] + out + s[end:]
+    q.note('R30', 'match on &str constants -> if / else-if chain over crate::csvx::str_eq (%d arms, same order)' % len(arms))
+
+
 def tx_csv_part(ctx):
     """portfolio/io/tx_csv.rs: the reading half (parse_tx_csv, csvtx_from_csv_values, the two cell parsers) on stand-ins for
     the csv crate and str helpers (shim/csv_stubs.rs)"""
     from units.qt import str_match_to_if
     tc = Src(ctx, 'portfolio/io/tx_csv.rs').cut_tests().standard()
-    tc.only(['fn parse_csv_action', 'fn parse_csv_superficial_loss', 'fn csvtx_from_csv_values', 'struct TxCsvParseOptions', 'fn parse_tx_csv'],
-            why='the writing half (txs_to_csv_table, write_txs_to_csv) is not extracted')
+    tc.only(['fn parse_csv_action', 'fn parse_csv_superficial_loss', 'fn csvtx_from_csv_values', 'struct TxCsvParseOptions', 'fn parse_tx_csv',
+             'struct PlainCsvTable', 'fn txs_to_csv_table'],
+            why='write_txs_to_csv (csv crate writer; "mostly obsolete") is not extracted')
     tc.sub(r'(?ms)^(pub )?use [^;]*;\n', '', 'select')
     tc.replace("crate::util::date::DynDateFormat", "crate::util::date_fmt::DynDateFormat", 'R1')
     # parse_csv_action
@@ -47,16 +99,33 @@ def tx_csv_part(ctx):
                  'let mut __j: usize = 0;\n        let __fl = crate::csvx::fields_vec(&record);\n        for col_val in __fl {\n            let i = __j;', '__j')
     tc.replace('if !col_val.trim().is_empty() {', 'if !crate::csvx::str_is_empty(crate::csvx::trim(col_val)) {', 'R26')
     tc.replace('tx_values.insert(col_name, col_val.trim().to_string());', 'tx_values.insert(col_name, crate::csvx::to_string(crate::csvx::trim(col_val)));', 'R26')
+    # txs_to_csv_table
+    tc.replace("HashSet::<&'static str>::from([", "crate::itx::hashset_from([", 'R32')
+    tc.sub(r'\ball_headers\s*\.iter\(\)', 'crate::itx::slice_iter(&all_headers)', 'R32', required=True)
+    tc.replace("for col in &headers {", "for col in headers.iter() {", 'R8')
+    const_match_to_if(tc, "let val: String = match *col {", "*col")
+    tc.replace("tx.trade_date.map(|v| v.to_string()).unwrap_or_else(empty)", "tx.trade_date.map(|v| v.to_string()).unwrap_or_else(empty)", 'R26', required=True)
+    tc.sub(r'(?s)format!\(\s*"\{\}\{\}",\s*v\.superficial_loss\.to_string_min_precision\(2\),\s*if v\.force \{ "!" \} else \{ "" \}\s*\)',
+           'crate::csvx::with_mark(v.superficial_loss.to_string_min_precision(2), v.force)', 'H', required=True)
+    tc.replace(".map(|v| v.name().to_string())", ".map(|v| crate::csvx::to_string(v.name()))", 'R26')
+    tc.replace("_ => panic!(\"Invalid col {}\", col),", "_ => panic!(\"Invalid col\"),", 'R3', required=False)
+    # the export order table of csv_common.rs (dropped from the shared bk part) is needed here: same text, second inherent impl
+    cc = Src(ctx, 'portfolio/csv_common.rs').cut_tests().standard()
+    m = re.search(r"(?ms)^    pub fn export_order_non_deprecated_cols\(\).*?^    \}\n", cc.s)
+    if not m:
+        raise BuildError('portfolio/csv_common.rs: fn export_order_non_deprecated_cols not found')
+    cc.note('select', 'fn export_order_non_deprecated_cols taken into mod tx_csv as `impl CsvCol { .. }`')
+    export_impl = "impl CsvCol {\n" + m.group(0) + "}\n"
     tx_csv_use = ("use std::collections::{HashMap, HashSet};\nuse crate::rust_decimal::Decimal;\nuse crate::portfolio::csv_common::CsvCol;\n"
-                  "use crate::portfolio::{Affiliate, CsvTx, Currency, SFLInput, SplitRatio, TxAction};\nuse crate::util::decimal::LessEqualZeroDecimal;\n"
+                  "use crate::portfolio::{Affiliate, CsvTx, Currency, SFLInput, SplitRatio, TxAction};\nuse crate::util::decimal::{to_string_min_precision, LessEqualZeroDecimal};\n"
                   "use crate::util::rw::WriteHandle;\nuse crate::util::rw_reader::DescribedReader;\nuse vstd::std_specs::iter::IteratorSpec;\ntype Error = String;\n")
-    return mod('tx_csv', tx_csv_use + tc.text())
+    return mod('tx_csv', tx_csv_use + export_impl + tc.text())
 
 
 def with_csv_stubs(head):
     """the csv / str stand-ins of tx_csv.rs go in front of the marker, next to the other shims"""
     d = os.path.join(os.path.dirname(os.path.dirname(os.path.abspath(__file__))), 'shim')
-    return head.replace(MARKER, '') + open(os.path.join(d, 'csv_stubs.rs')).read() + MARKER
+    return head.replace(MARKER, '') + open(os.path.join(d, 'csv_stubs.rs')).read() + open(os.path.join(d, 'office_stubs.rs')).read() + MARKER
 
 
 APP_USE = ("use std::collections::HashMap;\nuse vstd::std_specs::iter::IteratorSpec;\nuse crate::time::Date;\nuse crate::fx::io::RateLoader;\n"
@@ -128,6 +197,7 @@ def OVERLAY_SPLIT(op):
 
 
 TAG_RULES = [
+    (r'txs_to_csv_table|export_order_non_deprecated_cols|lemma_table_reads_back|lemma_omitted_column|lemma_header_member|lemma_export_distinct', ['C10', 'C18']),
     (r'tx_csv::', ['C07']),
     (r'input_parse::', ['C16']),
     (r'approot::', ['C07', 'C08', 'C16', 'C04']),
